@@ -104,7 +104,18 @@ func guardException(p *core.Prog, fn *ssa.Function, fa *ssa.FieldAddr, write boo
 	// trailer before publication: single writer; readers test `done` under the lock first.
 	if fn.Parent() == nil && fn.Signature.Recv() != nil && mustCallRoundTrip(fn, 0) {
 		publishes := false
+		tails := append([]*ssa.Function{}, fn.AnonFuncs...)
+		// the deferred tail may have become a method of the stream that the deferred literal calls
 		for _, a := range fn.AnonFuncs {
+			core.Instrs(a, func(in ssa.Instruction) {
+				if cc := core.CallOf(in); cc != nil {
+					if sc := cc.StaticCallee(); sc != nil && sc.Blocks != nil && sc.Signature.Recv() != nil && fn.Signature.Recv() != nil && core.NamedOf(sc.Signature.Recv().Type()) == core.NamedOf(fn.Signature.Recv().Type()) {
+						tails = append(tails, sc)
+					}
+				}
+			})
+		}
+		for _, a := range tails {
 			closes, locks := false, false
 			core.Instrs(a, func(in ssa.Instruction) {
 				if cc := core.CallOf(in); cc != nil {
